@@ -73,7 +73,7 @@ Detail(s2, e, v) ==
   ELSE <<"DETAIL", tid, l, v>>
 
 \* ------------------------------------------------------------------ failing statements (C13, C09, C15)
-InPlaceStmt(s) == s.k \in {"setitem", "aug", "uout"}
+InPlaceStmt(s) == s.k \in {"setitem", "aug", "uout", "setshape"}
 Target(s) == IF s.k = "uout" THEN s.out ELSE s.t
 \* A statement that NumPy itself rejects is a failing statement: it must raise in MyGrad too and leave no trace.
 \* MyGrad-only failures that the properties allow:
@@ -91,7 +91,9 @@ Admissible(s, e, prev) ==
 \* what a failed statement may leave behind: nothing, except that a failed in-place update may already have
 \* dropped the (stale) gradient of its target's family
 FailStates(s, stmt) ==
-  LET s0 == [s EXCEPT !.clk = @ + 1] IN
+  \* (a backward that fails while an un-re-routed consumer is pending is the known finding F-C09-1 becoming manifest,
+  \*  e.g. as a RecursionError of the traversal through the cycle it created)
+  LET s0 == [s EXCEPT !.clk = @ + 1, !.kf = IF stmt.k = "backward" /\ s.pend # {} THEN @ \cup {"F-C09-1"} ELSE @] IN
   IF InPlaceStmt(stmt) /\ s.track
   THEN LET r == Root(s, Target(stmt)) IN {s0, [s0 EXCEPT !.g[r] = None], [s0 EXCEPT !.H[Target(stmt)].gc = 0]}
   ELSE IF stmt.k = "backward" /\ s.track /\ ~s.H[stmt.h].const
@@ -110,7 +112,8 @@ TNext == /\ verdict = "ok" /\ l <= Len(Traces[tid])
                 good == {c \in cands : FirstFail(c, e0) = "ok"}
                 s2 == IF failed
                       THEN (IF good # {} THEN CHOOSE c \in good : TRUE
-                            ELSE IF cands # {} THEN CHOOSE c \in cands : c.g = st.g /\ c.H = st.H ELSE st)
+                            ELSE IF cands # {} THEN CHOOSE c \in cands : c.g = st.g /\ c.H = st.H
+                            ELSE CHOOSE c \in FailStates(st, e.stmt) : c.g = st.g /\ c.H = st.H)
                       ELSE Apply(st, e.stmt)
                 loud == e.exc = "InvalidBackprop" /\ cands # {}     \* aborted backward: gradients unspecified, trace ends
                 v  == IF failed
